@@ -31,6 +31,7 @@ IO = {"name": "io", "units": [("io_main.cpp", [])] + [("io_text.cpp", ["-DVK_PAR
 
 ENGINES = {"hist": HIST, "reject": REJECT, "shape": SHAPE, "paths": PATHS, "io": IO}
 
+
 ASSUME_COMMON = [
     "the g++ 12 / libstdc++ toolchain, AddressSanitizer and UBSan report what they are documented to report",
     "the reference model in harness/ (a std::map keyed by vertex pair) is itself correct; it was cross-checked by making each monitor fire on seeded breakages",
@@ -315,6 +316,143 @@ def run_io(prop, tier, seed):
     return V.conclude(prop, tier, seed, plan["level"], res, coverage, assume, plan["floors"], t0)
 
 
+# ---- C17: the valid workloads of C01-C16 in a matrix of build configurations
+LITE = {
+    "hist": {"name": "hist-lite", "units": [("hist_main.cpp", [])] + [("hist_simple.cpp", ["-DVK_LABEL=%d" % k]) for k in (0, 1, 5)] +
+             [("hist_multi.cpp", []), ("hist_weighted.cpp", [])]},
+    "shape": {"name": "shape-lite", "units": [("shape_main.cpp", []), ("shape_other.cpp", []), ("shape_simple.cpp", ["-DVK_LABEL=1"]), ("shape_simple.cpp", ["-DVK_LABEL=5"]),
+                                               ("shape_wctor.cpp", ["-DVK_WHICH=0"], "optional"), ("shape_wctor.cpp", ["-DVK_WHICH=1"], "optional")]},
+    "paths": PATHS,
+    "io": {"name": "io-lite", "units": [("io_main.cpp", []), ("io_text.cpp", ["-DVK_PART=1"]), ("io_text.cpp", ["-DVK_PART=2"]), ("io_bin.cpp", ["-DVK_PART=0"]),
+                                         ("io_bin.cpp", ["-DVK_PART=3"])]},
+}
+# (engine, workload property, quick cases or stride, thorough ...): hist/io take a case count, shape/paths a stride over their space
+C17_WORKLOADS = [
+    ("hist", "C01", 700), ("hist", "C02", 700), ("hist", "C03", 600), ("hist", "C04", 600), ("hist", "C05", 600), ("hist", "C06", 600), ("hist", "C16", 600),
+    ("shape", "C08", 9), ("shape", "C09", 9), ("shape", "C10", 9),
+    ("paths", "C11", 9), ("paths", "C12", 9), ("paths", "C19", 5),
+    ("io", "C13", 900), ("io", "C14", 900),
+]
+C17_FLAVORS = {"quick": ["asan", "debug", "o2", "clang-asan"], "thorough": ["asan", "debug", "o2", "o0", "clang-asan", "clang-o2", "valgrind"]}
+
+
+def run_c17(prop, tier, seed):
+    import subprocess
+    t0 = time.time()
+    flavors = C17_FLAVORS[tier]
+    mult = 1 if tier == "quick" else 12
+    res = V.ShardResult()
+    digests = {}    # (engine, workload) -> {flavor: digest}
+    mismatch = {}   # (engine, workload) -> {flavor: set(model-mismatch keys)}
+    per_flavor = {}
+    samples = []
+    total_cases = 0
+    with cf.ThreadPoolExecutor(V.NCPU) as pool:
+        bins = {}
+        for fl in flavors:
+            bf = "plain" if fl == "valgrind" else fl
+            for eng in LITE:
+                bins[(fl, eng)] = V.build_engine(LITE[eng], bf, pool)
+    for fl in flavors:
+        prefix = None
+        if fl == "valgrind":
+            prefix = ["valgrind", "--quiet", "--error-exitcode=66", "--exit-on-first-error=yes", "--track-origins=yes", "--num-callers=25"]
+        fl_calls = 0
+        for eng, wl, amount in C17_WORKLOADS:
+            binary = bins[(fl, eng)]
+            slow = 25 if fl == "valgrind" else 1
+            if eng in ("hist", "io"):
+                cases = max(64, amount * mult // slow)
+                extra = []
+            else:
+                total = int(subprocess.run([binary, "--prop", wl, "--tier", "quick", "--mode", "count"], capture_output=True, text=True,
+                                           env=dict(os.environ, **V.SAN_ENV)).stdout.strip())
+                stride = max(1, (amount * slow) // mult)
+                cases = total
+                extra = ["--x-stride", str(stride)]
+            r = V.run_sharded(wl, binary, extra, cases, seed, "quick", V.NCPU, 1800 if tier == "quick" else 14400, replay_dir(prop), prefix=prefix,
+                              tag="c17-%s-%s" % (fl, wl))
+            if r.inconclusive and not res.inconclusive:
+                res.inconclusive = "[%s/%s] %s" % (fl, wl, r.inconclusive)
+            executed = cases if eng in ("hist", "io") else (cases + int(extra[1]) - 1) // int(extra[1])
+            total_cases += executed
+            fl_calls += r.counters.get("calls_total", 0)
+            key = (eng, wl)
+            if fl != "valgrind":
+                digests.setdefault(key, {})[fl] = r.counters.get("digest_xor", 0)
+            mm = set()
+            for v in r.viols:
+                k = v["key"]
+                if re_is_report(k):
+                    v = dict(v)
+                    v["key"] = "%s/%s/%s" % (fl, wl, k)
+                    res.viols.append(v)
+                else:
+                    mm.add(k)
+            if fl != "valgrind":
+                mismatch.setdefault(key, {})[fl] = mm
+            res.distinct.update(r.distinct)
+            if fl == flavors[0]:
+                samples += r.samples[:1]
+            for k2, v2 in r.counters.items():
+                if k2.startswith("calls_") or k2.startswith("obs_") or k2 in ("graphs_built", "dijkstra_runs", "sources", "text_round_trips", "binary_round_trips"):
+                    per_flavor.setdefault(fl, {})
+                    per_flavor[fl][k2] = per_flavor[fl].get(k2, 0) + v2
+        per_flavor.setdefault(fl, {})["workload_cases"] = per_flavor.get(fl, {}).get("workload_cases", 0)
+    # results must not depend on the build configuration
+    disagreements = []
+    for key, d in digests.items():
+        if len(set(d.values())) > 1:
+            disagreements.append((key, d))
+            os.makedirs(replay_dir(prop), exist_ok=True)
+            rp = os.path.join(replay_dir(prop), "digest-%s-%s-s%d.json" % (key[0], key[1], seed))
+            with open(rp, "w") as fh:
+                json.dump({"property": prop, "what": "order-independent digest of every result of workload %s/%s differs between build configurations" % key,
+                           "digests": d, "seed": seed}, fh, indent=1)
+            res.viols.append({"key": "results-depend-on-build/%s/%s" % key, "detail": "digest per configuration: %s" % d, "replay": rp, "case": 0, "count": 1})
+    for key, d in mismatch.items():
+        sets = list(d.values())
+        if any(x != sets[0] for x in sets):
+            rp = os.path.join(replay_dir(prop), "mismatch-%s-%s-s%d.json" % (key[0], key[1], seed))
+            os.makedirs(replay_dir(prop), exist_ok=True)
+            with open(rp, "w") as fh:
+                json.dump({"property": prop, "what": "model disagreements of workload %s/%s differ between build configurations" % key,
+                           "per_configuration": {k: sorted(v) for k, v in d.items()}}, fh, indent=1)
+            res.viols.append({"key": "model-disagreement-depends-on-build/%s/%s" % key, "detail": str({k: sorted(v)[:3] for k, v in d.items()}), "replay": rp, "case": 0, "count": 1})
+    behavioural = sorted({k for d in mismatch.values() for s_ in d.values() for k in s_})
+    res.counters = {"workload_runs": len(flavors) * len(C17_WORKLOADS), "digests_compared": sum(len(d) for d in digests.values()),
+                    "workloads_with_identical_digest_in_every_configuration": sum(1 for d in digests.values() if len(set(d.values())) == 1)}
+    coverage = {
+        "evaluations": int(total_cases),
+        "distinct_nontrivial": len(res.distinct),
+        "rule": "the valid workloads of C01-C06, C16 (call histories), C08-C10 (graph shapes, conversions, constructors, subgraphs), C11/C12/C19 (searches) and C13/C14 "
+                "(file round trips) are executed, with the same seed, in every build configuration listed under 'configurations'; oracles: (1) no AddressSanitizer / "
+                "UBSan / _GLIBCXX_ASSERTIONS / _GLIBCXX_DEBUG(+PEDANTIC) / valgrind-memcheck report and no crash in any configuration, (2) the order-independent digest "
+                "of every result (full state after every history, operator<< output, search results, file bytes) is identical in all configurations, (3) the set of "
+                "model disagreements is the same everywhere (a deterministic logic error belongs to the property that owns it, not here). distinct_nontrivial = "
+                "distinct workload cases (union over configurations)",
+        "samples": sample_list(samples, 6),
+        "configurations": {fl: (" ".join(V.FLAVORS["plain" if fl == "valgrind" else fl]) + (" under valgrind --tool=memcheck" if fl == "valgrind" else "")) for fl in flavors},
+        "digest_by_workload": {"%s/%s" % k: ("%x" % list(d.values())[0] if len(set(d.values())) == 1 else {f: "%x" % x for f, x in d.items()}) for k, d in digests.items()},
+        "api_calls_and_observations_per_configuration": per_flavor,
+        "deterministic_model_disagreements_ignored_here": behavioural[:20],
+        "counters": res.counters,
+        "exhaustive": False,
+    }
+    floors = {"digests_compared": len(C17_WORKLOADS) * (len(flavors) - (1 if "valgrind" in flavors else 0))}
+    return V.conclude(prop, tier, seed, "exploration", res, coverage, [
+        "sanitizers see only the executions driven here; intra-object overflows and accesses far beyond a red zone can escape ASan (libstdc++ assertions / debug mode close that gap for standard containers only)",
+        "libstdc++ is the standard library in every configuration (clang++ uses it too); libc++ is not installed",
+        "valgrind memcheck (thorough tier) stands in for MemorySanitizer, which would need an instrumented libstdc++",
+    ], floors, t0)
+
+
+def re_is_report(key):
+    """keys produced by crash triage (sanitizer / debug-mode / memcheck / signal) as opposed to model disagreements"""
+    import re
+    return bool(re.match(r"(asan-|ubsan-|tsan-|glibcxx-|memcheck-|crash|uncaught-exception|hang/|signal-|abnormal-exit)", key))
+
+
 TITLES = {}
 for line in open(os.path.join(V.VERIF, "properties.jsonl")):
     d = json.loads(line)
@@ -331,7 +469,12 @@ for p in PATHS_PLAN:
     PROPS[p] = {"title": TITLES[p], "run": run_paths, "engines": [("paths", "asan")]}
 for p in IO_PLAN:
     PROPS[p] = {"title": TITLES[p], "run": run_io, "engines": [("io", "asan")]}
+PROPS["C17"] = {"title": TITLES["C17"], "run": run_c17, "engines": [(e, f) for e in ("hist-lite", "shape-lite", "paths", "io-lite") for f in ("asan", "debug", "o2", "clang-asan")]}
 PROPS["C07"] = {"title": TITLES["C07"], "run": run_c07, "engines": [("reject", "asan")]}
+
+
+for _e in LITE.values():
+    ENGINES[_e["name"]] = _e
 
 
 def build_all():
